@@ -161,6 +161,8 @@ def substTy (σ : List (String × Ty)) : Ty → Ty
     | ts' => .union ts'
   | .annotated t anns => .annotated (substTy σ t) anns
   | .tupleLit ts => .tupleLit (substTys σ ts)
+  -- a subscripted pane dataclass `Cls[T]` is re-subscripted with the replaced arguments
+  | .cls n as => .cls n (substTys σ as)
   | t => t
 def substTys (σ : List (String × Ty)) : List Ty → List Ty
   | [] => []
